@@ -567,21 +567,23 @@ package parse
 //@ func trimWhitespace
 //@   requires atQuote(t)
 //@ func (*Tree).argumentConcatenate
-//@   requires tokWF(t) && t.peekCount <= 1
+//@   requires tokWF(t) && t.peekCount <= 1 && 0 <= t.depth && t.depth <= maxNesting
 //@   modifies t.peekCount
 //@   modifies t.token
 //@   modifies t.lex.lastPos
 //@   modifies received(t.lex.items)
 //@   modifies t.Root
-//@   ensures tokWF(t) && t.peekCount <= 1
+//@   modifies t.depth
+//@   ensures tokWF(t) && t.peekCount <= 1 && t.depth == old(t.depth)
 //@ func (*Tree).argumentQuoted
-//@   requires tokWF(t) && t.peekCount <= 1
+//@   requires tokWF(t) && t.peekCount <= 1 && 0 <= t.depth && t.depth <= maxNesting
 //@   modifies t.peekCount
 //@   modifies t.token
 //@   modifies t.lex.lastPos
 //@   modifies received(t.lex.items)
 //@   modifies t.Root
-//@   ensures tokWF(t) && t.peekCount <= 1
+//@   modifies t.depth
+//@   ensures tokWF(t) && t.peekCount <= 1 && t.depth == old(t.depth)
 
 // ---------------------------------------------------------------------------
 // Parser / lexer hand-over (C07): "after the call has returned, no goroutine started by it remains". The lexer
